@@ -514,7 +514,7 @@ func execCache(opsPath, outPath string) {
 		var outs []string
 		var res [][]string
 		var err error
-		for try := 0; try < 8; try++ {
+		for try := 0; try < 12; try++ {
 			outs, res, err = runCase(c, unit)
 			if err == nil {
 				break
